@@ -178,6 +178,8 @@ def ob_fpbase(cfg, N, op, alias, deep=False, full=False):
     # deep: the BigInt helpers are executed from the IR as well (no specification in between); a few minutes per query on a loaded machine
     I.solver.set("timeout", 1200000 if deep else 120000)
     I.noalias_fatal = False     # negate(out == a) hands a.val to BigInt::subtract's __restrict parameter: recorded, see DESIGN.md S12
+    if cfg == "A" and N == 384:
+        asm_specs(I)            # whatever part of FpBase<384> is specialised onto the assembly (include/core/arch/x86_64/fp.hpp) meets it by its specification
     W = N + 8
     a = z3.BitVec("a", N)
     b = z3.BitVec("b", N) if FPBASE_OPS[op] == 2 and alias != 3 else a
@@ -771,6 +773,21 @@ def asm_specs(I):
             x = eir.as_bv(rd(args[1]), 384)
             wr(args[0], x << 1)
             return eir.simp(z3.ZeroExt(63, z3.Extract(383, 383, x)))
+        if k in ("fpbase_384_add", "fpbase_384_subtract", "fpbase_384_multiply2"):
+            # the modular kernels, by the all-operand specifications the x86:* obligations prove for them
+            x = eir.as_bv(rd(args[1]), 384)
+            if k.endswith("multiply2"):
+                y, pv = x, eir.as_bv(rd(args[2]), 384)
+            else:
+                y, pv = eir.as_bv(rd(args[2]), 384), eir.as_bv(rd(args[3]), 384)
+            if k.endswith("subtract"):
+                t = x - y
+                wr(args[0], z3.If(z3.ULT(x, y), t + pv, t))
+            else:
+                s_ = z3.ZeroExt(1, x) + z3.ZeroExt(1, y)
+                t = z3.Extract(383, 0, s_)
+                wr(args[0], z3.If(z3.Or(z3.Extract(384, 384, s_) == 1, z3.UGE(t, pv)), t - pv, t))
+            return None
         raise ExecError("unsupported", "unexpected external call " + name)
     I.external_handler = ext
 
@@ -874,6 +891,12 @@ def register(chk):
         chk.add("%s:FpBase<%d>::montgomery_reduce" % (cfg, N), ob_montgomery, cfg, N)
         chk.add("%s:Fp<%d>:forwarding" % (cfg, N), ob_fp_forward, cfg, N)
         chk.add("%s:constants:%d" % (cfg, N), ob_constants, cfg, N)
+    # the shipped Fq: FpBase<384> in configuration A (whichever members the arch header specialises call the assembly, the others are the template)
+    for op, nin in FPBASE_OPS.items():
+        for alias in (0, 1):
+            if op == "reduce" and alias:
+                continue
+            chk.add("A:FpBase<384>::%s:alias=%d" % (op, alias), ob_fpbase, "A", 384, op, alias)
     chk.add("A:Fp<384>:forwarding", ob_fp_forward, "A", 384)
     chk.add("A:constants:384", ob_constants, "A", 384)
     chk.add("A:x86-glue", ob_glue_x86)
@@ -939,7 +962,7 @@ def main(argv=None):
     chk.assumptions = ["operands of field kernels are canonical (< p): class invariant, re-established by every kernel's post-condition",
                        "Fq in the shipped x86-64 configuration uses the assembly kernels decided by C03 against the same specifications"]
     # lower layers whose specifications this check relies on: their obligations are part of this check's claim (framework.Check.include)
-    for dep in ['C18']:
+    for dep in ['C18', 'C20']:
         chk.include(dep)
     chk.run()
     chk.finish()
